@@ -38,6 +38,10 @@ pub fn wig_contents() -> Vec<Vec<EncChrom>> {
             ch("a", (0..5).map(|i| WigSec::T1(vec![(3 * i, 3 * i + 2, i as f32 + 1.0)])).collect()),
             ch("b", (0..4).map(|i| WigSec::T3(4 * i, 2, 2, vec![0.25 * (i as f32 + 1.0), -1.0])).collect()),
         ],
+        // 8, 9 and 27 chromosomes: chromosome trees of three and more levels with full blocks
+        (0..8).map(|i| ch(&format!("m{}", i), vec![WigSec::T1(vec![(i, i + 2, i as f32 + 1.0)])])).collect(),
+        (0..9).map(|i| ch(&format!("n{:02}", i), vec![WigSec::T3(i, 3, 2, vec![1.0, i as f32])])).collect(),
+        (0..27).map(|i| ch(&format!("p{:02}", i), vec![WigSec::T1(vec![(i % 10, i % 10 + 3, 0.5 * i as f32)])])).collect(),
         vec![
             ch("x1", vec![WigSec::T2(1, vec![(0, 1.0), (15, 2.0)])]),
             ch("x2", vec![WigSec::T3(1, 5, 3, vec![1.0, 2.0, 3.0])]),
@@ -74,7 +78,7 @@ fn specs(tier: Tier) -> Vec<EncSpec> {
     let formats: Vec<(u16, bool)> = vec![(1, false), (2, false), (3, false), (3, true), (4, false), (4, true)];
     let placements = [Placement::LevelOrder, Placement::DepthFirst, Placement::ChildrenFirst, Placement::Padded];
     let fanouts: &[usize] = if quick { &[2, 8] } else { &[2, 3, 8] };
-    let chrom_blocks: &[usize] = if quick { &[2, 64] } else { &[2, 3, 64] };
+    let chrom_blocks: &[usize] = &[2, 3, 64];
     let mut contents: Vec<(bool, Vec<EncChrom>)> = wig_contents().into_iter().map(|c| (false, c)).collect();
     contents.extend(bed_contents().into_iter().map(|c| (true, c)));
     let mut n = 0usize;
@@ -103,6 +107,7 @@ fn specs(tier: Tier) -> Vec<EncSpec> {
                                     version: *version,
                                     chroms: content.clone(),
                                     chrom_block,
+                                    chrom_level_order: n % 2 == 1,
                                     fanout,
                                     placement,
                                     zooms,
@@ -467,8 +472,8 @@ impl Check for C10 {
         let q = tier == Tier::Quick;
         json!({
             "byte_orders": 2, "version_x_compression": ["v1 raw", "v2 raw", "v3 raw", "v3 zlib", "v4 raw", "v4 zlib"],
-            "section_types": "bedGraph, variable step, fixed step, mixed per chromosome (5 bigWig contents); 3 bigBed contents",
-            "chrom_tree_block_sizes": if q { vec![2, 64] } else { vec![2, 3, 64] },
+            "section_types": "bedGraph, variable step, fixed step, mixed per chromosome; 8 bigWig contents (1-4, 8, 9 and 27 chromosomes), 3 bigBed contents",
+            "chrom_tree_block_sizes": if q { vec![2, 3, 64] } else { vec![2, 3, 64] }, "chrom_tree_node_order": ["depth first", "level order"],
             "rtree_fanouts": if q { vec![2, 8] } else { vec![2, 3, 8] },
             "node_placements": ["level order", "depth first", "children before header (non-leaf root ends the index)", "padded"],
             "zoom_variants": "none; [2,4] per-chromosome blocks; [2] blocks spanning chromosomes",
